@@ -198,6 +198,50 @@ pub fn verify_hostile(ctx: &Ctx, rep: &mut Report) {
     rep.require("verify_true", 1);
 }
 
+/// verify on hash-aware crafted triples (public key solved from the hash so that s1 takes
+/// chosen values): enormous norms in several mass layouts (all of s1 at the edge of its range
+/// in the first block, in one aligned block, spread, ...), exact-boundary norms, lopsided
+/// vectors. These corners cannot be reached by mutating bytes; the oracle here is only the
+/// panic monitor (both build profiles).
+pub fn verify_crafted(ctx: &Ctx, rep: &mut Report) {
+    fn go<V: Fv>(ctx: &Ctx, rep: &mut Report) {
+        let reps = ctx.sz(6, 60);
+        let r = par_for(reps, ncpu(), |job, rep| {
+            let mut rng = rng_for(ctx.seed, &format!("c03-crafted-{}-{}", V::NAME, job));
+            let mut triples: Vec<(String, crate::gen::Crafted)> = crate::gen::overflow_layouts(V::N, V::BOUND, &mut rng);
+            for (d, style) in [(0i64, 0u32), (1, 2), (-1, 200), (0, 3)] {
+                if let Some(c) = crate::gen::craft_exact(V::N, V::BOUND + d, style, &mut rng) {
+                    triples.push((format!("exact-norm{:+}-style{}", d, style), c));
+                }
+            }
+            // every coefficient of s1 at +-6144 (the largest norm verify can ever compute)
+            let s1max: Vec<i64> = (0..V::N).map(|i| if i % 2 == 0 { 6144 } else { -6144 }).collect();
+            let s2one: Vec<i64> = (0..V::N).map(|i| if i == 0 { 1 } else { 0 }).collect();
+            if let Some(c) = crate::gen::craft_from(V::N, s1max, s2one, &mut rng) {
+                triples.push(("all-s1-at-range-edge".into(), c));
+            }
+            for (name, c) in triples {
+                if let Some(body) = spec::compress(&c.s2, V::SIG_LEN - 41) {
+                    let mut sb = vec![0x50 | V::LOGN];
+                    sb.extend_from_slice(&c.salt);
+                    sb.extend_from_slice(&body);
+                    let pkb = spec::pk_encode(&c.h);
+                    if let Ok(pk) = V::pk_from_bytes(&pkb) {
+                        verify_one::<V>(&name, &c.msg, &sb, &pk, &pkb, rep);
+                        rep.count("crafted_triples", 1);
+                        rep.nontrivial(format!("{}|{}|{}", V::NAME, job, name).as_bytes());
+                    }
+                }
+            }
+        });
+        rep.merge(r);
+    }
+    go::<F512>(ctx, rep);
+    go::<F1024>(ctx, rep);
+    rep.sample(json!({"what": "verify on hash-aware crafted triples", "layouts": ["spread", "front-loaded", "back-loaded", "two-step-block", "all-s1-at-range-edge", "exact-norm", "lopsided"]}));
+    rep.require("crafted_triples", 50);
+}
+
 /// verify on (salt, message) pairs whose hash stream has unusually many rejected chunks (found
 /// with the reference hash only; see C14 extremes): the hashing step of verify under the panic
 /// monitor on inputs that typical workloads never produce.
